@@ -115,13 +115,20 @@ class Cell:
 
     def explore(self, cmd: dict, timeout: float, on_violation) -> dict:
         self.send(cmd)
+        self.last_done = 0
         end = time.monotonic() + timeout
         while True:
             msg = self._read(max(1.0, end - time.monotonic()))
             if msg["t"] == "violation":
                 on_violation(self.cell, msg)
+            elif msg["t"] == "progress":
+                self.last_done = msg["done"]
             elif msg["t"] == "done":
                 return msg["agg"]
+
+    def gen_case(self, pid, seed, tier, index) -> dict:
+        self.send({"cmd": "gen", "pid": pid, "seed": seed, "tier": tier, "index": index})
+        return self._read(120)["case"]
 
     def close(self):
         try:
@@ -135,6 +142,48 @@ class Cell:
             self.proc.kill()
         except Exception:
             pass
+
+
+HANG_TIMEOUT_S = 45.0
+
+
+def careful_pass(pid, tier, seed, cell, idxs, repo, on_violation, aggs, c, lock, why):
+    """Re-run the remaining runs of a dead cell one by one; the first that kills or stalls its interpreter for
+    HANG_TIMEOUT_S is reported as a liveness violation with its case (4 orders of magnitude above a normal run)."""
+    total = None
+    w = Cell(cell, repo)
+    try:
+        for n, idx in enumerate(idxs[:64]):
+            try:
+                agg = w.explore({"cmd": "explore", "pid": pid, "seed": seed, "tier": tier, "runs": [idx],
+                                 "samples": 1, "run_timeout": int(HANG_TIMEOUT_S)}, timeout=HANG_TIMEOUT_S + 15,
+                                on_violation=on_violation)
+            except HarnessError as exc:
+                g = Cell(cell, repo)
+                try:
+                    case = g.gen_case(pid, seed, tier, idx)
+                finally:
+                    g.close()
+                on_violation(cell, {"run_index": idx, "case": case, "digest": None, "violations": [{
+                    "property": pid, "clause": pid + "/hang", "where": "run did not finish",
+                    "observed": f"the run stalled or killed its interpreter (> {HANG_TIMEOUT_S:.0f} s wall, a normal "
+                                f"run takes milliseconds): {str(exc)[-600:]}",
+                    "expected": "every operation returns or raises", "tags": {"liveness": True}}]})
+                break
+            if total is None:
+                total = agg
+            else:
+                total["runs"] += agg["runs"]
+                total["steps"] += agg["steps"]
+    finally:
+        w.kill()
+    if total is None:
+        total = {"runs": 1, "nontrivial": [], "probes": {}, "faults": {}, "steps": 0, "states": [], "schedules": [],
+                 "samples": [], "digests": {}, "violating_runs": 1, "stopped_early": True}
+    total["stopped_early"] = True
+    total["stop_reason"] = "cell died: " + why[:200]
+    with lock:
+        aggs[c] = total
 
 
 def explore_property(pid: str, tier: str, seed: int, budget_s: Optional[float] = None, runs: Optional[int] = None,
@@ -164,6 +213,7 @@ def explore_property(pid: str, tier: str, seed: int, budget_s: Optional[float] =
             idxs = list(range(c, nruns, runner.NCELLS))
             if not idxs:
                 return
+            w = None
             try:
                 w = Cell(cell, repo)
                 try:
@@ -176,8 +226,17 @@ def explore_property(pid: str, tier: str, seed: int, budget_s: Optional[float] =
                 finally:
                     w.close()
             except HarnessError as exc:
+                msg = str(exc)
+                if w is not None and ("died" in msg or "timed out" in msg):
+                    # a run killed or stalled the interpreter: locate it one run at a time (bounded liveness)
+                    try:
+                        careful_pass(pid, tier, seed, cell, idxs[getattr(w, "last_done", 0):], repo, on_violation,
+                                     aggs, c, lock, msg)
+                        return
+                    except HarnessError as exc2:
+                        msg = str(exc2)
                 with lock:
-                    errors.append(str(exc))
+                    errors.append(msg)
             except Exception as exc:  # pragma: no cover
                 with lock:
                     errors.append(repr(exc))
